@@ -63,6 +63,8 @@ def gen(rng, tier):
     if not consts and notation is None and sg.size(ast) >= 4 and rng.random() < 0.2:
         # the same specification written with named sub-specifications (several assertions in one text, or add_sub_spec)
         defs, top = sg.modularize(rng, ast, max_subs=3, prefer_stateful=rng.random() < 0.5)
+        if rng.random() < 0.3:
+            defs, top = sg.add_alias(rng, defs, top, 'q1')       # a bare number or variable with a name of its own
         sp = sg.Spelling(rng)
         subs = ['%s = %s;' % (nm, sg.to_text(a, sp)) for nm, a in defs]
         text = 'out = ' + sg.to_text(top, sp) + ';'
